@@ -112,6 +112,7 @@ function makeEnv (spec) {
     k: 'p',
     m: 'concat',
     o: spec.o === 'null' ? null : w.spy('o'),
+    o2: w.spy('o2'),
     s: val(w, spec.s, 's', ' u '),
     x: 'x0',
     arr: ['r1', 'r2'],
